@@ -582,7 +582,7 @@ func debug(p program, s session) (o outcome) {
 	} else {
 		dbg.Continue(0)
 	}
-	deadline := time.After(20 * time.Second)
+	deadline := time.After(90 * time.Second)
 loop:
 	for {
 		select {
@@ -610,7 +610,7 @@ loop:
 		select {
 		case <-done:
 			o.Err = errString(err)
-		case <-time.After(10 * time.Second):
+		case <-time.After(60 * time.Second):
 			o.Hang = true
 		}
 	}
